@@ -232,3 +232,27 @@ def opiece(v):
     if not isinstance(v.extended_data, dict):
         raise TypeError("opiece: extended_data is not a dict")
     return cpair(cstr(v.name), sty(v.type), cz(v.bitstart), cz(v.bitlength), cstr(v.endianess), unit, xfields(v.extended_data))
+
+
+def ftree(fcp):
+    """FcpV2 -> Verifier.Checks.ftree (fail-closed)."""
+    ss = []
+    for s in fcp.structs:
+        fs = clist("{| fname := %s; fid := %s; fty := %s; funit := %s |}" % (
+            cstr(f.name), cz(f.field_id), sty(f.type), "None" if f.unit is None else f"(Some {cstr(f.unit)})") for f in s.fields)
+        ss.append("{| sname := %s; sfields := %s |}" % (cstr(s.name), fs))
+    es = ["{| ename := %s; evals := %s |}" % (cstr(e.name), clist(cpair(cstr(x.name), cz(x.value)) for x in e.enumeration)) for e in fcp.enums]
+    ims = [impl(i) for i in fcp.impls]
+    svs = [cstr(s.name) for s in fcp.services]
+    ds = []
+    for d in fcp.devices:
+        sv = d.fields.get("services")
+        if sv is None:
+            t = "None"
+        elif isinstance(sv, list) and all(isinstance(x, str) for x in sv):
+            t = f"(Some {clist(cstr(x) for x in sv)})"
+        else:
+            raise TypeError(f"ftree: device services outside the model: {sv!r}")
+        ds.append("{| dname := %s; dservices := %s |}" % (cstr(d.name), t))
+    return "{| t_structs := %s; t_enums := %s; t_impls := %s; t_services := %s; t_devices := %s |}" % (
+        clist(ss), clist(es), clist(ims), clist(svs), clist(ds))
